@@ -161,8 +161,25 @@ fn arbitrary(r: &mut Rng) -> String {
     }
 }
 
+/// Deterministic prelude (the same under every seed): every annotation / offset tail at which this crate's parser is known to
+/// deviate (harness/data/c12_tails.txt, harvested from the recorded findings, plus hand-written neighbours), behind every kind
+/// of core, through every parser that reads annotations - so that each (parser, class) of a recorded finding is visited on
+/// every run and a class first met by the random part under some other seed is rare.
+const CORES: [&str; 12] = ["2020-01-01", "2020-01-01T12:30:45", "2020-01-01T12:30:45.5", "12:30:45", "T12:30", "2020-01", "01-01", "--01-01",
+    "2020-01-01T12:30:45Z", "2020-01-01T12:30:45+01:00", "2020-01-01T12:30:45[UTC]", "2020-01-01T12:30:45+00:00[UTC]"];
+const READERS: [&str; 9] = ["PlainDate", "PlainDateTime", "PlainTime", "PlainYearMonth", "PlainMonthDay", "Instant", "ZonedDateTime", "Calendar", "TimeZone"];
+pub const PRELUDE: usize = 12 * 9;   // events per tail
+fn prelude(t: &mut Tracer) {
+    for tail in include_str!("../../data/c12_tails.txt").lines() {
+        for core in CORES { for ty in READERS { t.call(&format!("Parse.{}", ty), json!({"chars": chars_tok(&format!("{}{}", core, tail))})); } }
+        t.reset();
+    }
+}
+
 pub fn drive(t: &mut Tracer, r: &mut Rng, n: usize) {
     let small = ["UtcOffset", "TimeZoneId", "TimeZone", "MonthCode", "Calendar"];
+    prelude(t);
+    let n = n + t.n;   // the prelude does not count against the requested number of random events
     while t.n < n {
         let ty: &str = if r.chance(4, 5) { *r.pick(&TYPES) } else { *r.pick(&small) };
         let base = valid_for(r, ty);
